@@ -11,15 +11,17 @@ def run(v, tier, replay):
                       "hostile frames are injected into the victim muxer's transport as an authenticated peer would send them; a witness tube must keep carrying data both ways and both muxers must stop within 8 s",
                       "decoder memory: bytes allocated during the call (runtime.MemStats.TotalAlloc delta) <= 256 KiB + 16 x bytes received"]
     binp = lib.go_build("c11")
-    r = lib.tlc("HopHostile", "MC_HopHostile.cfg", timeout=120)
+    r = lib.tlc("HopHostile", "MC_HopHostile_t.cfg" if thorough else "MC_HopHostile.cfg", timeout=300)
     lib.tlc_must_pass(r, "MC_HopHostile"); v.add_tlc("MC_HopHostile (class products, postcondition)", r)
     m = re.search(r'^<<"EDGES", "(.*)">>$', r.out, re.M)
     edges = json.loads(m.group(1).replace('\\"', '"'))
     fedges = {(e["t"], e["l"], e["a"], e["n"]) for e in edges["frames"]}
     dedges = {(e["d"], e["c"]) for e in edges["decoders"]}
     sd = lib.scratch("vf-c11-")
+    m = re.search(r'^<<"OPENS", "(.*)">>$', r.out, re.M)
+    opens = json.loads(m.group(1).replace('\\"', '"'))
     nseeds = 5 if thorough else 1        # the frames' random payloads and the decoders' random inputs depend on the seed
-    jobs = [("frames", str(g), k) for g in range(8) for k in range(nseeds)] + [("flood", "", k) for k in range(nseeds)] + [("decoders", "", k) for k in range(nseeds)]
+    jobs = [("frames", str(g), k) for g in range(9) for k in range(nseeds)] + [("flood", "", k) for k in range(nseeds)] + [("decoders", "", k) for k in range(nseeds)]
     def child(j):
         mode, g, k = j
         out = os.path.join(sd, "%s%s-%d.ndjson" % (mode, g, k))
@@ -32,6 +34,26 @@ def run(v, tier, replay):
     if orc != 0 or not os.path.exists(ov_out):
         raise lib.Inconclusive("overlay driver codex failed: %s" % (oso + ose)[-2000:])
     events, fcov, dcov = [], set(), set()
+    # the session layer: hostile tube-open sequences against a real session loop (unexported: overlay test in hopserver)
+    of_in, of_out = os.path.join(sd, "opens.json"), os.path.join(sd, "opens.ndjson")
+    json.dump(opens, open(of_in, "w"))
+    orc, oso, ose = lib.overlay_test("hopserver", "^TestVerifHostileTubeOpens$", env_extra={"VT_IN": of_in, "VT_OUT": of_out}, timeout=900)
+    oev = lib.read_ndjson(of_out) if os.path.exists(of_out) else []
+    done_i = {e["i"] for e in oev if e["ev"] == "session"}
+    if orc != 0 or not any(e["ev"] == "summary" for e in oev):
+        tail = oso + ose
+        reason = [l for l in tail.split("\n") if (l.startswith("panic:") and "test timed out" not in l) or "fatal error" in l]
+        if not reason:
+            raise lib.Inconclusive("overlay driver hopserver failed: %s" % tail[-2000:])
+        inflight = [e for e in oev if e["ev"] == "opens" and e["i"] not in done_i]
+        stack = [l.strip() for l in tail.split("\n") if lib.REPO_MARK in l and "zz_verif" not in l][:4]
+        events.append(dict(ev="crash", mode="session", reason=reason[0][:300], stack=stack,
+                           last=dict(ref="one of %d tube-open sequences in flight, e.g. " % len(inflight) + json.dumps((inflight or [dict(seq="?")])[0]["seq"]), len="-", ack="-", no="-")))
+    events += [e for e in oev if e["ev"] == "session"]
+    for e in oev:
+        if e["ev"] == "opens":
+            v.case(("opens", json.dumps(e["seq"], sort_keys=True)))
+    v.cov["open_sequences_in_spec"] = len(opens); v.cov["open_sequences_executed"] = len(done_i)
     ov = lib.read_ndjson(ov_out)
     for e in ov:
         if e["ev"] == "case":
@@ -78,6 +100,9 @@ def run(v, tier, replay):
             sig = "crash in %s after %s | %s | %s" % (e["mode"], "%s len=%s ack=%s no=%s" % (last.get("ref"), last.get("len"), last.get("ack"), last.get("no")), e["reason"][:100], where)
         elif e["ev"] == "probe":
             sig = "witness tube broken after hostile frames %s: %s" % (e["after"], e["witness"][:80])
+        elif e["ev"] == "session":
+            sq = [x for x in oev if x["ev"] == "opens" and x["i"] == e["i"]][0]["seq"]
+            sig = "after the tube-open sequence %s the server no longer admits a connection" % json.dumps(sq, sort_keys=True)
         elif e["ev"] == "stop":
             sig = "muxer Stop did not return within 8 s after hostile frames (%s)" % e["group"]
         else:
